@@ -806,12 +806,12 @@ MULTI_RESNAMES = ["XA", "XB", "XC"]
 
 
 @st.composite
-def multires_block(draw, name, nrexcl, syntax):
+def multires_block(draw, name, nrexcl, syntax, resname_pool=None):
     nres = draw(st.integers(2, 3))
     atoms, inter = [], []
     # the block's own residue numbers need not start at 1 (a fragment cut out of a larger molecule)
     base = draw(st.sampled_from([1, 1, 1, 3, 10]))
-    resnames = [draw(st.sampled_from(MULTI_RESNAMES)) for _ in range(nres)]
+    resnames = [draw(st.sampled_from(resname_pool or MULTI_RESNAMES)) for _ in range(nres)]
     first_of = []
     for r in range(nres):
         nat = draw(st.integers(1, 3))
@@ -852,15 +852,20 @@ def multires_block(draw, name, nrexcl, syntax):
 
 
 @st.composite
-def multires_case(draw):
+def multires_case(draw, mixed_nrexcl=False, bonded_only=False):
+    """mixed_nrexcl: every block has its own nrexcl, and the residues of the multi-residue blocks may carry the
+    residue name of a regular block (blocks are chosen by block name, not by the residue name of their atoms)"""
     nrexcl = draw(st.integers(0, 3))
-    nnormal = draw(st.integers(0, 2))
+    nnormal = draw(st.integers(1 if mixed_nrexcl else 0, 2))
     blocks = []
     for name in RESNAMES[:nnormal]:
-        blocks.append(draw(block(name, nrexcl, draw(st.sampled_from(["ff", "itp"])))))
+        own = draw(st.integers(0, 4)) if mixed_nrexcl else nrexcl
+        blocks.append(draw(block(name, own, draw(st.sampled_from(["ff", "itp"])), nonbond_sections=not bonded_only)))
     nmulti = draw(st.integers(1, 2))
+    pool = RESNAMES[:nnormal] if mixed_nrexcl and draw(st.booleans()) else None
     for name in ["MA", "MB"][:nmulti]:
-        blocks.append(draw(multires_block(name, nrexcl, draw(st.sampled_from(["ff", "itp", "itp"])))))
+        own = draw(st.integers(0, 4)) if mixed_nrexcl else nrexcl
+        blocks.append(draw(multires_block(name, own, draw(st.sampled_from(["ff", "itp", "itp"])), resname_pool=pool)))
     multi = [b for b in blocks if b.get("multires")]
     normal = [b for b in blocks if not b.get("multires")]
     # segments
